@@ -4,14 +4,14 @@ GEN = ["Stale"]
 PROPS = {"C03"}
 ASSUMPTIONS = [
     "call functions are deterministic (Herbrand terms); a store returns what was last written; every write gets a newer modified time",
-    "a dependent source has exactly one predecessor, its private producer (DESIGN 7.7); dependent sources count as sources for 'from scratch'",
+    "a dependent source is written only by its private producer; every other predecessor of it is also upstream of the producer (DESIGN 7.7); dependent sources count as sources for 'from scratch'",
     "the idempotence clause is checked only when every pure source holds a value (DESIGN 7.8)",
     "the order/atomicity of store events inside one run (ancestors written first, reads after writes) is the subject of C09/C01/C04",
 ]
 
 
 def explore(ctx):
-    n = 110 if ctx.tier == "quick" else 4000
+    n = 260 if ctx.tier == "quick" else 4000
     return ce.explore_cache(ctx, PROPS, n, steps=6)
 
 
